@@ -440,15 +440,15 @@ fn f3b() -> Result<String, String> {
 }
 
 /// F30: an index / header / container whose announced entry count is huge must be an error (the entries are not there),
-/// not an up-front allocation of tens of gigabytes that aborts the process. Each case runs in a child process under a
-/// 4 GiB address-space limit so that the outcome does not depend on how much memory the host has.
+/// not an up-front allocation of tens of gigabytes that aborts the process. Each case runs in a child process whose
+/// allocator refuses any single request above 1 GiB (main.rs), so the outcome does not depend on the host's memory.
 fn f30() -> Result<String, String> {
     let exe = std::env::current_exe().map_err(|e| e.to_string())?;
     let cases = ["csi-n_bin", "tabix-n_bin", "bai-n_ref", "bai-n_bin", "bam-n_ref"];
     let mut bad = Vec::new();
     for c in cases {
         let st = std::process::Command::new("sh").arg("-c")
-            .arg(format!("ulimit -v 4194304; exec {} child-F30-{} 2>/dev/null", exe.display(), c))
+            .arg(format!("exec {} child-F30-{} 2>/dev/null", exe.display(), c))
             .status().map_err(|e| e.to_string())?;
         if !st.success() { bad.push(format!("{c}: child ended with {st}")); }
     }
